@@ -3,11 +3,11 @@
  M  specs/Merge.tla: branch maps built from a common prefix (registers, flag registers, memory through one
     pointer), merge() transcribed loop by loop (flags forced to top, values joined through vec.simplify with
     de-duplication, widening, a threshold that may fire or not); TLC checks Covers / Untouched / KeysOK per byte
-    cell for every pair of branches of the small model, for the REPAIRED merge; merge() as it is (quirk
-    SkipWiderSecond) must be rejected.
- G  behaviours of the model (exhaustive small, -simulate large, with path-condition choices, widening,
-    threshold) are built on real mappers; merge() is called; what m1, m2 and mm hold for every register, every
-    memory byte and every item key is serialised.
+    cell for every pair of branches of the small model, for the REPAIRED merge; each quirk of amoco as it is
+    (SkipWiderSecond, StaleItems, TopReadAsBottom) must be rejected on its own.
+ G  behaviours of the model (exhaustive tiny, sampled small, -simulate large, with path-condition choices,
+    widening, threshold) are built on real mappers; merge() is called; what m1, m2 and mm hold for every
+    register, every memory byte and every item key is serialised.
  T  behaviours drawn by the seeded rng beyond the model: vector-valued pointers, more registers and flags.
     specs/MergeTrace.tla decides: candidates of mi included in the candidates of mm (or mm unknown) in every
     valuation satisfying branch i's conditions; untouched locations keep their value; item keys of mm come from
@@ -16,6 +16,8 @@
 import sys
 
 from harness import framework, tlc, c19, c19run
+
+QUIRKS = ("SkipWiderSecond", "StaleItems", "TopReadAsBottom")
 
 
 def run(ctx):
@@ -37,26 +39,34 @@ def run(ctx):
                 "a prefix or a path condition; distinct = distinct operation sequences and settings")
     ctx.assume("the candidates of a tree are computed by ExprMods!AltSet over vec / slc / comp / vector-valued-pointer nodes; "
                "a vec below an arithmetic operator is Unknown (treated as unknown on the merged side)")
-    ctx.assume("Covers is relative to what m1 and m2 themselves hold (their correctness is C02/C09), little-endian maps")
-    for cfg in (["MergeMC_quick.cfg", "MergeMC_quick2.cfg"] if quick else ["MergeMC_quick2.cfg", "MergeMC_thorough.cfg"]):
-        res = tlc.run("Merge", cfg, tag="c19mc", timeout=6000)
-        ctx.add_tlc(res, "M:" + cfg)
-    for q in ("SkipWiderSecond", "StaleItems", "TopReadAsBottom"):
-        res = tlc.run("Merge", "MergeMC_kf_%s.cfg" % q, expect_violation=True, tag="c19kf", timeout=3000, workers=2)
-        if not res.violation or "Covers" not in res.violation:
-            raise tlc.MachineryError("model: quirk %s alone does not violate Covers" % q)
-    ctx.note("quirks_rejected_by_model", ["SkipWiderSecond", "StaleItems", "TopReadAsBottom"])
-    ctx.note("selftest_fault_detected_by_model", res.violation)
+    ctx.assume("Covers is relative to what m1 and m2 themselves hold when given to merge() (their correctness is C02/C09; "
+               "merge() simplifies shared expression objects in place, so they are observed on copies taken before the call); "
+               "little-endian maps")
+    mcs = ["MergeMC_quick.cfg", "MergeMC_quick2.cfg"] if quick else ["MergeMC_quick2.cfg", "MergeMC_thorough.cfg"]
+    rej = ["MergeMC_kf_%s.cfg" % q for q in QUIRKS]
     if quick:
-        tr = c19run.generate(ctx, "MergeGen_tiny.cfg", "tiny", limit=150)
-        tr += c19run.generate(ctx, "MergeGen_small.cfg", "small", simulate="num=40", depth=5, limit=150)
-        tr += c19run.generate(ctx, "MergeSim.cfg", "sim", simulate="num=40", depth=9, limit=200)
-        tr += c19run.drive(ctx, 250)
+        gens = [("MergeGen_tiny.cfg", "tiny", None, None, 120), ("MergeGen_small.cfg", "small", "num=40", 5, 120),
+                ("MergeSim.cfg", "sim", "num=40", 9, 160)]
+        nrandom = 200
     else:
-        tr = c19run.generate(ctx, "MergeGen_tiny.cfg", "tiny")           # every behaviour of the tiny model
-        tr += c19run.generate(ctx, "MergeGen_small.cfg", "small", limit=4000)
-        tr += c19run.generate(ctx, "MergeSim.cfg", "sim", simulate="num=400", depth=9, limit=4000)
-        tr += c19run.drive(ctx, 4000)
+        gens = [("MergeGen_tiny.cfg", "tiny", None, None, None), ("MergeGen_small.cfg", "small", None, None, 4000),
+                ("MergeSim.cfg", "sim", "num=400", 9, 4000)]
+        nrandom = 4000
+    jobs = [(lambda c=c: tlc.run("Merge", c, tag="c19mc" + c[8:-4], timeout=12000, workers=None if not quick else 6)) for c in mcs]
+    jobs += [(lambda c=c: tlc.run("Merge", c, expect_violation=True, tag="c19rej" + c[8:-4], timeout=3000, workers=2)) for c in rej]
+    jobs += [(lambda g=g: c19run.gen_tlc(ctx.seed, g[0], g[1], g[2], g[3], g[4])) for g in gens]
+    out = c19run.parallel(jobs)
+    for c, res in zip(mcs, out[:len(mcs)]):
+        ctx.add_tlc(res, "M:" + c)
+    for c, res in zip(rej, out[len(mcs):len(mcs) + len(rej)]):
+        if not res.violation or "Covers" not in res.violation:
+            raise tlc.MachineryError("model: %s is not rejected by TLC (Covers)" % c)
+        ctx.add_tlc(res, "M(rejected):" + c)
+    ctx.note("quirks_rejected_by_model", list(QUIRKS))
+    tr = []
+    for g, gen in zip(gens, out[len(mcs) + len(rej):]):
+        tr += c19run.replay_generated(ctx, g[0], g[1], gen)
+    tr += c19run.drive(ctx, nrandom)
     c19run.validate(ctx, tr, "all")
     ctx.exhaustive = False
 
